@@ -48,7 +48,8 @@ def vv_aggs(row):
     for e in row.events:
         if e[0] == "write" and e[3][0] == "agg" and e[3][1] == VV:
             out.append(("assign", e[3], e))
-        elif e[0] == "call" and sym.strip_all_generics(e[1]).endswith("VacantEntry::insert"):
+        elif e[0] == "call" and (sym.strip_all_generics(e[1]).endswith("VacantEntry::insert")
+                                  or sym.strip_all_generics(e[1]).endswith("BTreeMap::insert")):
             for a in e[2]:
                 if a[0] == "agg" and a[1] == VV:
                     out.append(("insert", a, e))
@@ -103,6 +104,9 @@ def cond_info(row, status_from=("get", "upd")):
             t = c[1]
             if t[0] == "call" and sym.strip_all_generics(t[1]).split("::")[-1] in ("get", "get_mut") and c[3]:
                 info["present"] = c[2] == "Some"
+                if sym.strip_all_generics(t[1]).split("::")[-1] == "get_mut" and info["entry"] is None:
+                    # `match map.get_mut(&k) { Some(v) => .., None => { map.insert(k, ..) } }` is the entry API spelled out
+                    info["entry"] = "Occupied" if c[2] == "Some" else "Vacant"
             elif t[0] == "call" and sym.strip_all_generics(t[1]).endswith("::entry") and c[3]:
                 info["entry"] = c[2]
             elif T.last_field(t) == (VV, "status") and _status_source(t) in status_from:
